@@ -1354,7 +1354,7 @@ func ruleReleaseLast(w *World, r *Report) {
 // CACHE-ERR-ORIGIN (C17): what the cache returns as an error is the error of opening the location, nothing of
 // the cache's own bookkeeping.
 func ruleCacheErrOrigin(w *World, r *Report) {
-	r.Rule("CACHE-ERR-ORIGIN", "the error result of CachedLocation.Get originates only in System.OpenLocation (followed through phis, local slots and wrapping calls that take an error): an error of the cache's own bookkeeping (reading the optional cacheTTL property) must not become the request's result, because it would be returned on the request that loads the location and not on those served from the cache — the answer would depend on the TTL", 1)
+	r.Rule("CACHE-ERR-ORIGIN", "the error result of CachedLocation.Get originates only in System.OpenLocation or in the existence check of an already loaded entry (sys.locationCreated and the not-found error built from its verdict — the same two origins OpenLocation itself has), followed through phis, local slots and wrapping calls that take an error: an error of the cache's own bookkeeping (reading the optional cacheTTL property) must not become the request's result, because it would be returned on the request that loads the location and not on those served from the cache — the answer would depend on the TTL", 1)
 	fn := w.Method("sys", "CachedLocation", "Get")
 	open := w.Method("sys", "System", "OpenLocation")
 	idx := errorResultIndex(fn.Signature)
@@ -1427,8 +1427,9 @@ func ruleCacheErrOrigin(w *World, r *Report) {
 	})
 	var bad []string
 	var where string
+	allowed := map[string]bool{fname(open): true, fname(w.Func("sys", "locationCreated")): true, fname(w.Func("core", "NewNotFoundError")): true}
 	for o, p := range origins {
-		if o != fname(open) {
+		if !allowed[o] {
 			bad = append(bad, o)
 			where = p
 		}
@@ -1442,7 +1443,7 @@ func ruleCacheErrOrigin(w *World, r *Report) {
 		r.violation("CACHE-ERR-ORIGIN", key, w.Pos(fn.Pos()), "the error of System.OpenLocation no longer reaches the result of CachedLocation.Get")
 		return
 	}
-	r.ok("CACHE-ERR-ORIGIN", key, w.Pos(fn.Pos()), "only OpenLocation's error is returned")
+	r.ok("CACHE-ERR-ORIGIN", key, w.Pos(fn.Pos()), "only the errors of opening and of the existence check are returned")
 }
 
 // PENDING-COUNT (C17): the in-use mark of a shared cache entry has to count its users.
@@ -3947,4 +3948,131 @@ func statesUnhookOnOverwrite(w *World) bool {
 		}
 	}
 	return all && n > 0
+}
+
+// EXIST-EVERY (C17): the existence check belongs to the request, not to the load.
+func ruleExistEvery(w *World, r *Report) {
+	r.Rule("EXIST-EVERY", "in CachedLocation.Get, with the `checkExists is false` edges deleted, every path to a return passes a check of the creation marker: System.OpenLocation with the caller's flag (when this request loads the location) or locationCreated (when the entry is already loaded).  An entry can be loaded without a check (as a parent through GetLocation, or by CreateLocation) and the marker can disappear while the entry is cached (clear, delete); if only the loading request checks, a cached entry answers a checked request for a location that, from storage alone, does not exist — with TTL never the same request fails", 1)
+	fn := w.Method("sys", "CachedLocation", "Get")
+	key := "fn=" + fname(fn)
+	open := w.Method("sys", "System", "OpenLocation")
+	lc := w.Func("sys", "locationCreated")
+	var flag ssa.Value
+	for _, p := range fn.Params {
+		if p.Name() == "checkExists" {
+			flag = p
+		}
+	}
+	if flag == nil {
+		// last bool parameter
+		for _, p := range fn.Params {
+			if b, ok := p.Type().Underlying().(*types.Basic); ok && b.Kind() == types.Bool {
+				flag = p
+			}
+		}
+	}
+	if flag == nil {
+		r.exempt("EXIST-EVERY", key, w.Pos(fn.Pos()), "CachedLocation.Get has no boolean check flag: shape not recognised, not decided")
+		return
+	}
+	del := map[bedge]bool{}
+	for _, b := range fn.Blocks {
+		if len(b.Instrs) == 0 {
+			continue
+		}
+		ifi, ok := b.Instrs[len(b.Instrs)-1].(*ssa.If)
+		if !ok {
+			continue
+		}
+		ct, ok := decodeIf(ifi)
+		if !ok || resolveSpill(ct.V) != flag {
+			continue
+		}
+		if ct.TrueWhen == "true" {
+			del[bedge{b, 1}] = true
+		} else if ct.TrueWhen == "false" {
+			del[bedge{b, 0}] = true
+		}
+	}
+	isCheck := func(in ssa.Instruction) bool {
+		c := callOf(in)
+		if c == nil {
+			return false
+		}
+		f := c.StaticCallee()
+		if f == lc {
+			return true
+		}
+		if f == open {
+			last := c.Args[len(c.Args)-1]
+			return dependsOn(last, func(v ssa.Value) bool { return v == flag })
+		}
+		return false
+	}
+	isRet := func(in ssa.Instruction) bool { _, ok := in.(*ssa.Return); return ok }
+	if h, path := reach(fn, nil, isRet, isCheck, edgeFilterOf(del)); h != nil {
+		r.violation("EXIST-EVERY", key, w.PosOf(h), "a checked request can be answered from the cached entry without a look at the creation marker", blockPathString(w, path)...)
+		return
+	}
+	r.ok("EXIST-EVERY", key, w.Pos(fn.Pos()), "every checked request looks at the creation marker")
+}
+
+// LOAD-PURE (C17, C06): loading is not creating.
+func ruleLoadPure(prop string) ruleFn {
+	return func(w *World, r *Report) {
+		r.Rule("LOAD-PURE", "Storage.Load does not change the storage object: in every Storage implementation of the repository, Load and the methods of the same type it calls contain no map update on, and no store into, a field of the receiver.  A Load that inserts an (empty) entry for an unknown location creates, in storage, a location that a refused request merely asked about", 1)
+		st := w.Iface("core", "Storage")
+		n := 0
+		for _, nt := range w.Implementers(st) {
+			load := w.TryMethod(typeRel(nt), nt.Obj().Name(), "Load")
+			if load == nil || isTestFile(w, load) {
+				continue
+			}
+			n++
+			key := "impl=" + fname(load)
+			owner := typeKey(nt)
+			seen := map[*ssa.Function]bool{}
+			var bad string
+			var visit func(fn *ssa.Function)
+			visit = func(fn *ssa.Function) {
+				if seen[fn] || bad != "" {
+					return
+				}
+				seen[fn] = true
+				withAnon(fn, func(g *ssa.Function) {
+					allInstrs(g, func(in ssa.Instruction) {
+						if bad != "" {
+							return
+						}
+						switch t := in.(type) {
+						case *ssa.MapUpdate:
+							if fo, f, _, ok := loadedField(t.Map); ok && typeKey(fo) == owner {
+								bad = w.PosOf(in) + " writes " + owner + "." + f
+							}
+						case *ssa.Store:
+							if fo, f, _, ok := fieldOf(t.Addr); ok && typeKey(fo) == owner {
+								bad = w.PosOf(in) + " stores into " + owner + "." + f
+							}
+						}
+						if c := callOf(in); c != nil {
+							if f := c.StaticCallee(); f != nil && f.Signature.Recv() != nil {
+								if rn := namedOf(f.Signature.Recv().Type()); rn != nil && typeKey(rn) == owner {
+									visit(f)
+								}
+							}
+						}
+					})
+				})
+			}
+			visit(load)
+			if bad != "" {
+				r.violation("LOAD-PURE", key, w.Pos(load.Pos()), "Load changes the storage object: "+bad)
+			} else {
+				r.ok("LOAD-PURE", key, w.Pos(load.Pos()), "Load only reads")
+			}
+		}
+		if n == 0 {
+			r.exempt("LOAD-PURE", "impl=none", "", "no Storage implementation found: not decided")
+		}
+	}
 }
